@@ -10,29 +10,40 @@ are arbitrary, and so are the settings `b` the builder was given. Unless said ot
 holds for EVERY action list `acts` from `SystemBuild::init`; nothing is bounded.
 
 What a user of this code relies on, and where it is proved:
-* builder: documented defaults, one setting per setter, last call wins — `builder_*`, `init_*`;
-* the four runners of `engine/run.rs` compute the same thing: the two feed modes agree on every
-  feed, the audit mode only adds the ticks — `feed_modes_agree`, `audit_mode_only_adds_ticks`,
-  `runner_closed_form`, and a stopped system is in exactly the state the chosen runner function
+* builder: documented defaults, one setting per setter, last call wins — `builder_defaults`,
+  `builder_setters`, `builder_last_call_wins`, `init_audit`;
+* the four runners of `engine/run.rs` compute the same thing: the two feed modes agree on every feed,
+  the audit mode only adds the ticks — `feed_modes_agree`, `audit_mode_only_adds_ticks`,
+  `runner_closed_form`; and a stopped system is in exactly the state the selected runner function
   returns on the channel's content — `stopped_state_is_runner_output`;
 * every event sent through the handle reaches `Engine::process` at most once, in call order, never
   overtaken by a later call — `commands_once_in_order`, `applied_in_send_order`,
-  `earlier_calls_applied_before`;
+  `earlier_calls_applied_before`, `command_sees_trading_state`;
 * `shutdown()` / `abort()` hand back the engine that processed exactly the recorded history: all
-  handle events sent, in order, `Shutdown` last and only once; nothing enqueued behind the
-  `Shutdown` is ever processed — `result_is_fold`, `result_on_shutdown`, `nothing_after_stop`,
-  `refines_spec`;
-* `abort` differs from `shutdown` in NOTHING the engine or the feed can see — `abort_eq_shutdown`;
+  handle events sent, in order, `Shutdown` last and only once; nothing enqueued behind the `Shutdown`
+  is ever processed — `engine_is_fold`, `stops_on_first_terminal`, `result_is_fold`,
+  `result_on_shutdown`, `nothing_after_stop`, `refines_spec`;
+* `abort` differs from `shutdown` in NOTHING the engine or the feed can see — `abort_eq_shutdown`
+  (in particular `abort()` does not skip what is queued in front of its `Shutdown`);
 * audit: enabled ⇒ snapshot with sequence 0 and one gap-free tick per processed event, terminal tick
-  last; disabled ⇒ no snapshot, no tick; `take_audit` yields it once — `audit_*`, `take_audit_*`;
-* once the engine has stopped by itself every handle call panics and the engine can only be
-  obtained from the join handle — `call_after_stop_panics`, `close_after_stop_panics`;
-* quiescence ⇒ everything sent / yielded / produced so far has been processed —
-  `quiescent_everything_processed`; the execution side sees exactly the engine's requests, in order —
-  `requests_reach_exchange_in_order`.
+  last; disabled ⇒ no snapshot, no tick; `take_audit` yields it once — `audit_enabled_stream`,
+  `audit_disabled_nothing`, `take_audit_once`;
+* once the engine has stopped by itself every handle call panics and the engine can only be obtained
+  from the join handle — `call_after_stop_panics`, `close_after_stop_panics`, `join_after_stop`;
+* market / account streams are consumed in order, nothing lost while the engine runs; quiescence ⇒
+  everything sent / yielded / produced so far has been processed; the execution side sees exactly
+  the engine's requests, in order — `streams_in_order`, `quiescent_everything_processed`,
+  `settle_end_quiescent`, `requests_reach_exchange_in_order`.
 The concrete part (engine model of `Model/Engine.lean` + the harness's strategy + mock exchange) adds
-`trading_is_last_update`, `disabled_calls_count` and the link to the C10 replica theorem
-(`audit_replica_reproduces_engine`).
+`trading_is_last_update`, the link to the C10 replica theorem with its hypotheses discharged
+(`audit_replica_reproduces_engine`), and the confluence result the correspondence's canonicalisation
+rests on (`account_order_irrelevant`, `reachable_state_ok`: the account events of one block commute
+on the whole engine state, in every reachable state).
+
+Not exhibited by the model (named, tied by the correspondence only): WHEN the blocking engine thread
+of the `Iterator` feed mode runs (its `try_recv` spin) and the window between the end of the engine's
+last tick and the drop of its feed receiver (the model stops and drops in one step); OS timing;
+wall-clock time; tokio's task order inside one await.
 -/
 namespace BarterModel.Props.C20S
 open BarterModel.SysHandle
@@ -254,6 +265,32 @@ theorem quiescent_everything_processed (E : Engine σ μ α κ ρ) (X : Exchange
   · simpa [hf, hm] using h.mkt h0
   · simpa [hf, hp] using h.acc h0
 
+/-- The driver's "await until nothing moves" scheduler ends, while the engine runs, only in a
+quiescent state. -/
+theorem settle_end_quiescent (s : Sys σ χ μ α κ ρ) (h : pickSettle s = none) (h0 : s.stopped = none) :
+    Quiescent s := by
+  unfold pickSettle at h
+  simp only [h0, Option.isSome_none, Bool.false_eq_true, ↓reduceIte] at h
+  refine ⟨h0, ?_, ?_, ?_⟩
+  · cases hf : s.feed with
+    | nil => rfl
+    | cons x xs => simp [hf] at h
+  · cases hf : s.feed with
+    | nil =>
+      cases hm : s.market with
+      | nil => rfl
+      | cons x xs => simp [hf, hm] at h
+    | cons x xs => simp [hf] at h
+  · cases hf : s.feed with
+    | nil =>
+      cases hm : s.market with
+      | nil =>
+        cases hp : s.pending with
+        | nil => rfl
+        | cons x xs => simp [hf, hm, hp] at h
+      | cons x xs => simp [hf, hm] at h
+    | cons x xs => simp [hf] at h
+
 /-- (the runner stops on the first terminal tick) While the engine runs no processed event was a
 `Shutdown` or fatal; once it has stopped the LAST processed event is the terminal one, no earlier one
 is, the audit handed back is that event's, and the reason recorded is `shutdown` exactly when that
@@ -382,6 +419,63 @@ theorem abort_eq_shutdown (E : Engine σ μ α κ ρ) (X : Exchange χ ρ α) (b
   refine ⟨rfl, rfl, rfl, rfl, rfl, rfl, rfl, rfl, ?_⟩
   cases hc : s.closed <;> cases hp : s.closePanicked <;> cases hst : s.stopped <;>
     cases ha : s.shutdownAudit <;> simp [result, Sys.norm, hc, hp, hst, ha]
+
+/-- (scheduler model = runner functions) When the engine has stopped, the system is in EXACTLY the
+state that the runner function `init` selected (`runner`, any of the four) returns when it is handed
+the total content of the feed channel (what was processed followed by what is still queued): same
+engine and sequence, same returned audit, same audit ticks, same requests, same unconsumed rest. -/
+theorem stopped_state_is_runner_output (E : Engine σ μ α κ ρ) (X : Exchange χ ρ α) (b : SystemBuild σ)
+    (x0 : χ) (acc0 : List α) (acts : List (Act μ κ)) (m : EngineFeedMode)
+    (hst : (reach E X b x0 acc0 acts).stopped.isSome) :
+    let s := reach E X b x0 acc0 acts
+    let o := runner E m b.auditMode (eng0 b.engine b.auditMode) (s.processed ++ s.feed)
+    o.engine = s.eng ∧ some o.shutdownAudit = s.shutdownAudit ∧ o.sent = s.ticks ∧
+    o.rest = s.feed ∧ o.requests = s.requests := by
+  intro s o
+  have h : Inv E X b.engine x0 acc0 b.auditMode s := inv_reach E X b x0 acc0 acts
+  have hst : s.stopped.isSome := hst
+  cases hs : s.stopped with
+  | none => simp [hs] at hst
+  | some st =>
+    obtain ⟨pre, last, h1, h2, h3, h4, _⟩ := h.halt.halted st hs
+    have ho := runner_output_of_halted E m b.auditMode (eng0 b.engine b.auditMode) pre last s.feed h2 h4
+    have : o = runner E m b.auditMode (eng0 b.engine b.auditMode) ((pre ++ [last]) ++ s.feed) := by
+      simp only [o, h1]
+    rw [this]
+    refine ⟨?_, ?_, ?_, ho.2.2.2.1, ?_⟩
+    · rw [ho.1, h.own.own, h1]
+    · rw [ho.2.1, h3]
+    · rw [ho.2.2.1, h.own.ticks, h1]
+    · rw [ho.2.2.2.2, h.own.reqs, h1]
+
+/-- (refinement to the abstract spec) What `shutdown()` / `abort()` return after a graceful end
+satisfies the documented contract: the history the engine processed contains every event sent
+through the handle, once, in call order, `Shutdown` last; its market events are a gap-free prefix of
+what the stream yielded and its account events were produced by the execution side; and the engine
+handed back is the built engine fed that history and nothing else. -/
+theorem refines_spec (E : Engine σ μ α κ ρ) (X : Exchange χ ρ α) (b : SystemBuild σ)
+    (x0 : χ) (acc0 : List α) (acts : List (Act μ κ)) (e : Eng σ) (t : Tick (Ev μ α κ))
+    (hr : result (reach E X b x0 acc0 acts) = some (e, t))
+    (hst : (reach E X b x0 acc0 acts).stopped = some .shutdown) :
+    let s := reach E X b x0 acc0 acts
+    SentInOrder s.sent s.processed ∧ FromTheStreams s.pushed s.produced s.processed ∧
+    IsFoldOf E b.engine b.auditMode s.processed e ∧
+    (∃ pre, s.processed = pre ++ [.shutdown] ∧ Ev.shutdown ∉ pre) ∧
+    (∃ n, t = .process n .shutdown (E.fatal (engFold E b.engine s.processed.dropLast) .shutdown)) := by
+  intro s
+  obtain ⟨pre, h1, h2, h3, _, _⟩ := result_on_shutdown E X b x0 acc0 acts hst
+  have hfold := result_is_fold E X b x0 acc0 acts e t hr
+  refine ⟨h3, (streams_in_order E X b x0 acc0 acts).1, hfold.1, ⟨pre, h1, h2⟩, ?_⟩
+  obtain ⟨pre', last, g1, _, _, g3, _, g5⟩ := (stops_on_first_terminal E X b x0 acc0 acts).2 _ hst
+  have hl : last = .shutdown := g5.mp rfl
+  subst hl
+  have hsa := hfold.2.2.1
+  have : some t = some _ := hsa.symm.trans g3
+  injection this with this
+  have g1 : s.processed = pre' ++ [Ev.shutdown] := g1
+  refine ⟨(engAfter E (eng0 b.engine b.auditMode) pre').seq, ?_⟩
+  rw [this, g1]
+  simp [processWithAudit, engAfter_state, eng0]
 
 /-! ## Audit -/
 
@@ -522,5 +616,230 @@ theorem join_after_stop (E : Engine σ μ α κ ρ) (X : Exchange χ ρ α) (b :
     unfold joinResult
     simp only [reach] at hs h3 ⊢
     rw [hs, h3]
+
+/-! ## The concrete system of the correspondence (engine model of `Model/Engine.lean` + the harness's
+strategy, mock exchange) -/
+
+section Concrete
+open BarterModel.Engine BarterModel.Orders BarterModel.Props.C10
+
+/-- `acts` from `SystemBuild::init`, concrete engine and exchange. -/
+abbrev creach (b : SystemBuild CEng) (x0 : CExch) (acc0 : List AccEv)
+    (acts : List (Act MktEv Command)) : CSys := run cEngine cExchange (b.init x0 acc0) acts
+
+/-- (trading state) At every moment the engine's trading state is the LAST trading-state update it
+has processed (the builder's initial state if none) — commands, market and account events never touch
+it, in either trading state commands are actioned — and `on_trading_disabled` has been invoked once
+per `Enabled → Disabled` transition. After a graceful shutdown "processed" is "sent": the returned
+engine's trading state is the last `trading_state()` call. -/
+theorem trading_is_last_update (b : SystemBuild CEng) (x0 : CExch) (acc0 : List AccEv)
+    (acts : List (Act MktEv Command)) :
+    let s := creach b x0 acc0 acts
+    s.eng.state.eng.enabled = specTrading b.engine.eng.enabled (handleOf s.processed) ∧
+    s.eng.state.eng.disabledCalls =
+      b.engine.eng.disabledCalls + specDisabledCalls b.engine.eng.enabled (handleOf s.processed) ∧
+    (s.stopped = some .shutdown →
+      s.eng.state.eng.enabled = specTrading b.engine.eng.enabled s.sent ∧
+      s.eng.state.eng.disabledCalls =
+        b.engine.eng.disabledCalls + specDisabledCalls b.engine.eng.enabled s.sent) := by
+  intro s
+  have hfold : IsFoldOf cEngine b.engine b.auditMode s.processed s.eng :=
+    engine_is_fold cEngine cExchange b x0 acc0 acts
+  have ht := engFold_trading b.engine s.processed
+  have hh := specTrading_handleOf (μ := MktEv) (α := AccEv) (κ := Command) b.engine.eng.enabled s.processed
+  have h1 : s.eng.state.eng.enabled = specTrading b.engine.eng.enabled (handleOf s.processed) := by
+    rw [hfold.1, ht.1, hh.1]
+  have h2 : s.eng.state.eng.disabledCalls =
+      b.engine.eng.disabledCalls + specDisabledCalls b.engine.eng.enabled (handleOf s.processed) := by
+    rw [hfold.1, ht.2, hh.2]
+  refine ⟨h1, h2, ?_⟩
+  intro hst
+  obtain ⟨_, _, _, h3, _, _⟩ := result_on_shutdown cEngine cExchange b x0 acc0 acts hst
+  have h3 : handleOf s.processed = s.sent := h3
+  rw [← h3]; exact ⟨h1, h2⟩
+
+/-- (`trading_state(x)` before command `c`) When the engine processes a handle event `ev` — e.g. a
+command —, its trading state is the one set by the last `trading_state()` call made BEFORE the call
+that sent `ev` (the builder's initial state if there was none): updates sent later have not been
+applied, every update sent earlier has. -/
+theorem command_sees_trading_state (b : SystemBuild CEng) (x0 : CExch) (acc0 : List AccEv)
+    (acts : List (Act MktEv Command)) (pre post : List CEv) (ev : CEv)
+    (hp : (creach b x0 acc0 acts).processed = pre ++ ev :: post) (hev : ev.isHandle = true) :
+    (engFold cEngine b.engine pre).eng.enabled =
+      specTrading b.engine.eng.enabled ((creach b x0 acc0 acts).sent.take (handleOf pre).length) := by
+  have h := (applied_in_send_order cEngine cExchange b x0 acc0 acts pre post ev hp hev).1
+  rw [← h, (specTrading_handleOf b.engine.eng.enabled pre).1]
+  exact (engFold_trading b.engine pre).1
+
+/-- (audit ⇒ replica) With the audit enabled, a `StateReplicaManager` started from the snapshot and
+run over the audit ticks (the `Replica` of `Model/Audit.lean`) accepts every tick — none skipped,
+none rejected —, ends at the sequence of the last tick, and its state reproduces the engine's at
+that moment (`Props.C10.Synced`: trading state, positions, prices, and orders once in-flight request
+markers are set aside) — for every schedule and at every moment, in particular for the engine that
+`shutdown()` / `abort()` return. The hypotheses of the C10 theorem (`HistoryOk`) are DISCHARGED here
+for this system: its exchange only reports final order states, so no client order id is ever
+confirmed open. Needs an engine built without orders (`SystemBuilder::build` builds it so). -/
+theorem audit_replica_reproduces_engine (b : SystemBuild CEng) (x0 : CExch) (acc0 : List AccEv)
+    (acts : List (Act MktEv Command)) (hno : ∀ i c, orderState b.engine.eng i c = none) :
+    let s := creach b x0 acc0 acts
+    ∃ r, Audit.Replica.run ⟨b.engine.eng, 0⟩ (cAuditTicks b.engine 1 s.processed) = .ok r ∧
+      r.seq = s.processed.length ∧ Synced s.eng.state.eng r.state ∧
+      (b.auditMode = .enabled →
+        (cAuditTicks b.engine 1 s.processed).map Audit.Tick.seq = s.ticks.map SysHandle.Tick.seq ∧
+        (cAuditTicks b.engine 1 s.processed).map Audit.Tick.terminal = s.ticks.map SysHandle.Tick.terminal) := by
+  intro s
+  have hinv : Inv cEngine cExchange b.engine x0 acc0 b.auditMode s := inv_reach cEngine cExchange b x0 acc0 acts
+  have hfold : IsFoldOf cEngine b.engine b.auditMode s.processed s.eng :=
+    engine_is_fold cEngine cExchange b x0 acc0 acts
+  -- the replica consumes the whole processed history: no terminal tick before the last one
+  have hcons : consumed cEngine ⟨b.engine, 1⟩ s.processed = s.processed := by
+    have key : ∀ q, consumed cEngine ⟨b.engine, q⟩ s.processed = s.processed := by
+      intro q
+      -- terminality of a tick does not depend on the sequence counter
+      have hq : ∀ (h : List CEv) (e : CEng) (q q' : Nat),
+          (ticksOf cEngine ⟨e, q⟩ h).map Tick.terminal = (ticksOf cEngine ⟨e, q'⟩ h).map Tick.terminal := by
+        intro h
+        induction h with
+        | nil => intro e q q'; rfl
+        | cons x h ih =>
+          intro e q q'
+          simp only [ticksOf, List.map_cons]
+          have := ih (processWithAudit cEngine ⟨e, q⟩ x).1.state (q + 1) (q' + 1)
+          exact List.cons_eq_cons.mpr ⟨rfl, this⟩
+      have hnt : ∀ (h : List CEv),
+          (∀ t ∈ ticksOf cEngine (eng0 b.engine b.auditMode) h, t.terminal = false) →
+          (∀ t ∈ ticksOf cEngine ⟨b.engine, q⟩ h, t.terminal = false) := by
+        intro h hall t ht
+        have h1 : t.terminal ∈ (ticksOf cEngine ⟨b.engine, q⟩ h).map Tick.terminal :=
+          List.mem_map_of_mem ht
+        rw [hq h b.engine q (seq0 b.auditMode)] at h1
+        obtain ⟨t', ht', he⟩ := List.mem_map.mp h1
+        rw [← he]; exact hall t' ht'
+      cases hs : s.stopped with
+      | none => exact consumed_of_running cEngine _ _ (hnt _ (hinv.halt.running hs).1)
+      | some st =>
+        obtain ⟨pre, last, h1, h2, _, h4, _⟩ := hinv.halt.halted st hs
+        rw [h1]
+        have h4' : (processWithAudit cEngine (engAfter cEngine ⟨b.engine, q⟩ pre) last).2.1.terminal = true := by
+          have e1 : (engAfter cEngine ⟨b.engine, q⟩ pre).state =
+              (engAfter cEngine (eng0 b.engine b.auditMode) pre).state := by
+            rw [engAfter_state, engAfter_state]; rfl
+          simp only [processWithAudit, Tick.terminal] at h4 ⊢
+          rw [e1]; exact h4
+        have := consumed_of_halted cEngine ⟨b.engine, q⟩ pre last [] (hnt _ h2) h4'
+        simpa using this.1
+    exact key 1
+  have hrun := replica_run_ticks b.engine b.engine.eng 0 s.processed
+  simp only [Nat.zero_add] at hrun
+  rw [hcons] at hrun
+  refine ⟨_, hrun, rfl, ?_, ?_⟩
+  · have hn : NoConfirmed b.engine.eng := by intro i c; rw [hno i c]; rfl
+    have hsim := replica_simulation b.engine.eng b.engine.eng (cHist b.engine s.processed)
+      (synced_snapshot b.engine.eng (by intro i c; rw [hno i c]; rfl))
+      (historyOk_cHist b.engine s.processed hn)
+    rw [← engFold_eq_engineRun, ← hfold.1] at hsim
+    exact hsim
+  · intro ha
+    have ht : s.ticks = ticksOf cEngine ⟨b.engine, 1⟩ s.processed := by
+      have := hinv.own.ticks; simpa [ha, eng0, seq0] using this
+    rw [ht]; exact cAuditTicks_agree b.engine 1 s.processed
+
+/-- The engine `SystemBuilder::build` builds for the correspondence has no orders. -/
+theorem cMkEngine_no_orders (k : Nat) (x2 trading : Bool) (i c : Nat) :
+    orderState (cMkEngine k x2 trading).eng i c = none := by
+  unfold orderState
+  cases h : (cMkEngine k x2 trading).eng.instruments[i]? with
+  | none => rfl
+  | some st =>
+    have hm : st ∈ (cMkEngine k x2 trading).eng.instruments := List.mem_of_getElem? h
+    simp only [cMkEngine, List.mem_append, List.mem_map] at hm
+    rcases hm with ⟨j, _, rfl⟩ | hm
+    · rfl
+    · split at hm
+      · simp only [List.mem_singleton] at hm; subst hm; rfl
+      · simp at hm
+
+/-- (account events of one block commute) In a state where the strategy has nothing pending
+(`Settled`: while trading is enabled it has answered every recorded trade — true after every tick),
+no order is confirmed open and positions are well-formed, processing a block of account events of the
+mock exchange (order reports, cancel errors, balances, fills with positive quantity) in ANY order
+leads to the SAME engine: orders, positions, prices, trading state, request log, everything. This is
+what the correspondence relies on when it compares the account events of one `settle` segment as a
+sorted multiset: their arrival order is tokio's, the resulting engine is not. -/
+theorem account_order_irrelevant (s : CEng) (l1 l2 : List AccEv) (ok : StateOk s)
+    (hq : ∀ a ∈ l1, AccOk a) (hperm : l1.Perm l2) :
+    engFold cEngine s (l1.map Ev.account) = engFold cEngine s (l2.map Ev.account) := by
+  rw [engFold_accounts s l1 ok.settled ok.noConfirmed, engFold_accounts s l2 ok.settled ok.noConfirmed,
+    foldl_accApply_perm l1 l2 hperm s.eng ok.posOk hq]
+
+/-- … and every state the concrete system reaches is such a state: for every schedule from a build
+of `cMkEngine`, as long as the fills the engine has processed carry positive quantities. -/
+theorem reachable_state_ok (b : SystemBuilder) (k : Nat) (x2 : Bool) (x0 : CExch) (acc0 : List AccEv)
+    (acts : List (Act MktEv Command))
+    (hq : ∀ ev ∈ (creach (b.build (cMkEngine k x2)) x0 acc0 acts).processed, EvOk ev) :
+    StateOk (creach (b.build (cMkEngine k x2)) x0 acc0 acts).eng.state := by
+  have hfold : IsFoldOf cEngine (b.build (cMkEngine k x2)).engine (b.build (cMkEngine k x2)).auditMode
+      (creach (b.build (cMkEngine k x2)) x0 acc0 acts).processed
+      (creach (b.build (cMkEngine k x2)) x0 acc0 acts).eng :=
+    engine_is_fold cEngine cExchange _ x0 acc0 acts
+  rw [hfold.1]
+  apply stateOk_engFold _ _ _ hq
+  refine ⟨?_, ?_, ?_⟩
+  · intro _; rfl
+  · intro i c
+    show Audit.strip (orderState (cMkEngine k x2 _).eng i c) = none
+    rw [cMkEngine_no_orders]; rfl
+  · intro st hst
+    simp only [SystemBuilder.build, cMkEngine, List.mem_append, List.mem_map] at hst
+    intro sd q hp
+    rcases hst with ⟨j, _, rfl⟩ | hst
+    · cases hp
+    · split at hst
+      · simp only [List.mem_singleton] at hst; subst hst; cases hp
+      · simp at hst
+
+/-! ### Non-vacuity: concrete schedules (evaluated by the kernel) -/
+
+/-- audit enabled, trading enabled, 1 instrument, quote balance 1000 -/
+def demoBuild : SystemBuild CEng :=
+  ((SystemBuilder.new.audit_mode .enabled).trading_state true).build (cMkEngine 1 false)
+def demoExch : CExch := ⟨1, 1000, [10]⟩
+def demoOpen : OpenReq := ⟨⟨0, 0, 1⟩, .buy, 100, 1⟩
+
+/-- open request, trading off, shutdown; a market event forwarded behind the `Shutdown` stays on the feed -/
+def demoActs : List (Act MktEv Command) :=
+  [ .call (send_open_requests [demoOpen]), .engine, .fwdAccount 0, .engine, .fwdAccount 0, .engine,
+    .call (trading_state false), .close .graceful, .push ⟨0, 0, 101, none, false⟩, .fwdMarket,
+    .engine, .engine, .engine ]
+
+example : (creach demoBuild demoExch [.snapshot 1000 [10]] demoActs).stopped = some .shutdown := by
+  decide +kernel
+example : (result (creach demoBuild demoExch [.snapshot 1000 [10]] demoActs)).isSome = true := by
+  decide +kernel
+example : (creach demoBuild demoExch [.snapshot 1000 [10]] demoActs).processed.length = 5 ∧
+    (creach demoBuild demoExch [.snapshot 1000 [10]] demoActs).eng.seq = 6 ∧
+    (creach demoBuild demoExch [.snapshot 1000 [10]] demoActs).ticks.length = 5 ∧
+    (creach demoBuild demoExch [.snapshot 1000 [10]] demoActs).feed.length = 1 ∧
+    (creach demoBuild demoExch [.snapshot 1000 [10]] demoActs).eng.state.eng.enabled = false ∧
+    (creach demoBuild demoExch [.snapshot 1000 [10]] demoActs).eng.state.eng.disabledCalls = 1 := by
+  decide +kernel
+-- audit disabled: one sequence number less, no tick
+example : (creach ((SystemBuilder.new.trading_state true).build (cMkEngine 1 false)) demoExch
+      [.snapshot 1000 [10]] demoActs).eng.seq = 5 ∧
+    (creach ((SystemBuilder.new.trading_state true).build (cMkEngine 1 false)) demoExch
+      [.snapshot 1000 [10]] demoActs).ticks.length = 0 := by
+  decide +kernel
+-- a request for the exchange without execution link stops the engine; the next call panics,
+-- `shutdown()` returns nothing, the join handle still yields the engine
+def demoFatal : List (Act MktEv Command) :=
+  [ .call (send_open_requests [⟨⟨1, 1, 5⟩, .buy, 10, 1⟩]), .engine, .call (trading_state true),
+    .close .graceful, .engine ]
+example : (creach (SystemBuilder.new.build (cMkEngine 1 true)) demoExch [] demoFatal).stopped = some .fatal ∧
+    (creach (SystemBuilder.new.build (cMkEngine 1 true)) demoExch [] demoFatal).panics = 2 ∧
+    (result (creach (SystemBuilder.new.build (cMkEngine 1 true)) demoExch [] demoFatal)).isSome = false ∧
+    (joinResult (creach (SystemBuilder.new.build (cMkEngine 1 true)) demoExch [] demoFatal)).isSome = true := by
+  decide +kernel
+
+end Concrete
 
 end BarterModel.Props.C20S
